@@ -98,7 +98,7 @@ func ruleC16File(p *Prog, a *Anchors, r *Report) {
 			vals := p.fieldStores([]*ssa.Alloc{al}, fi)
 			ok := len(vals) > 0
 			for _, v := range vals {
-				if s, isC := constString(v); isC && s == "" {
+				if mayBeEmptyConst(v, 0) {
 					ok = false
 				}
 			}
@@ -109,6 +109,30 @@ func ruleC16File(p *Prog, a *Anchors, r *Report) {
 			}
 		}
 	}
+}
+
+// mayBeEmptyConst: on some path the value is the constant "" (directly, through a phi or a local variable that keeps
+// its zero value).
+func mayBeEmptyConst(v ssa.Value, depth int) bool {
+	if depth > 6 {
+		return false
+	}
+	switch x := v.(type) {
+	case *ssa.Const:
+		s, isC := constString(x)
+		return isC && s == ""
+	case *ssa.Phi:
+		for _, e := range x.Edges {
+			if mayBeEmptyConst(e, depth+1) {
+				return true
+			}
+		}
+	case *ssa.UnOp:
+		if sv := localLoadValue(x); sv != nil {
+			return mayBeEmptyConst(sv, depth+1)
+		}
+	}
+	return false
 }
 
 // compileOnlyByName: functions that belong to the compile side although the call graph also reaches them from
